@@ -99,6 +99,41 @@ pub fn check(case: &Case, rec: &mut Rec) -> Option<Failure> {
 }
 
 pub fn generate(r: &mut Runner) {
+    // stage 1: small scope with exact ties — periods 1..=4, every sequence of length d over {1,2,3} (bars: three
+    // fixed bars), split into prefix | suffix of exactly the memory length + 1
+    let depth = if r.tier == Tier::Quick { 7 } else { 9 };
+    let sym: [f64; 3] = [1.0, 2.0, 3.0];
+    let bsym = [
+        crate::ind::B { o: 1.0, h: 2.0, l: 1.0, c: 1.5, v: 10.0 },
+        crate::ind::B { o: 2.0, h: 3.0, l: 1.5, c: 2.0, v: 0.0 },
+        crate::ind::B { o: 2.0, h: 2.0, l: 2.0, c: 2.0, v: 5.0 },
+    ];
+    r.log_every = 211;
+    for name in INDS {
+        let (np, nm) = crate::ind::arity(name).unwrap();
+        let bars = !crate::ind::has_next_name(name);
+        for n in 1..=4usize {
+            let mem = memory(name, n);
+            if mem + 1 > depth {
+                continue;
+            }
+            let ps: Vec<usize> = (0..np).map(|_| n).collect();
+            let ms: Vec<f64> = (0..nm).map(|_| 2.0).collect();
+            for code in 0..3usize.pow(depth as u32) {
+                let mut c = Case::new("C17", "ties-exhaustive", name, &ps, &ms);
+                let mut k = code;
+                for j in 0..depth {
+                    if j == depth - (mem + 1) {
+                        c.ops.push(Op::Mark);
+                    }
+                    let s = k % 3;
+                    k /= 3;
+                    c.ops.push(if bars { Op::Bar(bsym[s]) } else { Op::Next(sym[s]) });
+                }
+                r.run(c, true);
+            }
+        }
+    }
     let cases = if r.tier == Tier::Quick { 960 } else { 36000 };
     r.log_every = if r.tier == Tier::Quick { 11 } else { 401 };
     for i in 0..cases {
@@ -136,4 +171,4 @@ pub fn generate(r: &mut Runner) {
     }
 }
 
-pub const RULE: &str = "12 windowed indicators × periods 1..=4 (a third) and sampled to 128 × an arbitrary prefix (0..300 / 0..2000 inputs, half of them with every 7th value ×10^6) followed by a common suffix of at least n (n+1 for ROC, ER, MFI) inputs; the instance that saw the whole history is compared with a fresh instance fed only the suffix at every suffix length from n (n+1) on: exactly for Minimum, Maximum, FastStochastic; tau(t)·M for the accumulating ones (sqrt(tau)·M on the SD scale), × the condition number of the suffix reference for ratios (gate 1e6). Non-trivial = non-empty prefix.";
+pub const RULE: &str = "stage 1 (exact ties): periods 1..=4, every sequence of length 7 (quick) / 9 (thorough) over three symbols, split into an arbitrary prefix and a suffix of memory+1 inputs; stage 2: 12 windowed indicators × periods 1..=4 (a third) and sampled to 128 × an arbitrary prefix (0..300 / 0..2000 inputs, half of them with every 7th value ×10^6) followed by a common suffix of at least n (n+1 for ROC, ER, MFI) inputs; the instance that saw the whole history is compared with a fresh instance fed only the suffix at every suffix length from n (n+1) on: exactly for Minimum, Maximum, FastStochastic; tau(t)·M for the accumulating ones (sqrt(tau)·M on the SD scale), × the condition number of the suffix reference for ratios (gate 1e6). Non-trivial = non-empty prefix.";
